@@ -74,6 +74,8 @@ def replay_all(run, f, tvs):
 def main():
     tier = sys.argv[1] if len(sys.argv) > 1 else "quick"
     run = Run(PID, tier)
+    from harness.lie import touch_all as _touch_all
+    _touch_all()        # first uses of the Lie API happen BEFORE the models are derived (see harness/lie.py)
     f = build()
     if "--replay" in sys.argv:
         import json
